@@ -68,7 +68,20 @@ def gen_statement(R, events, allow_datetime=True):
         v = float(numpy.nextafter(v, -numpy.inf))
     elif x < 0.4:
         v = v + R.choice((0.05, -0.05, 1.0))
-    return '%s %s %r' % (attr, op, v), [col, op, v]
+    # how the number is written is the caller's business: anything float() reads is a legal threshold
+    y = R.random()
+    if y < 0.1:
+        text = '%.16e' % v                       # exponent notation (what repr gives for tiny / huge values)
+    elif y < 0.14:
+        v = R.choice((float('inf'), float('-inf')))
+        text = repr(v)
+    elif y < 0.18 and v >= 0:
+        text = '+%r' % v
+    elif y < 0.22 and v == int(v) and abs(v) < 1e6:
+        text = '%d' % int(v)                     # '5' rather than '5.0'
+    else:
+        text = repr(v)
+    return '%s %s %s' % (attr, op, text), [col, op, v]
 
 
 def generate(R, tier, focus):
@@ -77,7 +90,7 @@ def generate(R, tier, focus):
     mags = gen.gen_mags(R)
     n_ev = R.choice((0, 1, 2, R.randint(0, 15), R.randint(0, 15 if not thorough else 60)))
     mag_pool = [3.95, 4.0, 4.5, 4.95, 5.0, 5.5, 6.05]
-    dep_pool = [0.0, 5.5, 10.0, 33.3]
+    dep_pool = [0.0, 5.5, 10.0, 33.3, 1e-05, 2.5e-05]
     t_pool = [R.randint(MS_1900, MS_2200) for _ in range(4)] + [R.randint(MS_1900, MS_2200) // 1000 * 1000]
     events = []
     for k in range(n_ev):
